@@ -367,10 +367,12 @@ Definition fire_top (s : st) (t : nat) : option (nat * nat * st) :=
   | None => None
   end.
 
-(* PromiseType::Impl: `_executor = std::move(caller._executor)` swaps the two pointers *)
-Definition swap_exec (c o : nat) (s : st) : st :=
+(* PromiseType::Impl: the coroutine takes the executor of the core that completed.  [sw] is what the source does
+   (Gen_ready_c13.c13_impl_swaps_executor): true: `_executor = std::move(caller._executor)`, which swaps the two
+   pointers (before commit f1ffb7c); false: a copy, the core keeps its executor *)
+Definition swap_exec (sw : bool) (c o : nat) (s : st) : st :=
   match nth_error (cos s) c, nth_error (objs s) o with
-  | Some co, Some ob => set_ob o (set_oexec (cexec co) ob) (set_co c (set_cexec (oexec ob) co) s)
+  | Some co, Some ob => set_ob o (set_oexec (if sw then cexec co else oexec ob) ob) (set_co c (set_cexec (oexec ob) co) s)
   | _, _ => s
   end.
 
@@ -423,7 +425,7 @@ Definition plain_fire (t o c : nat) (s : st) : option st :=
       | AWait, Some a =>
           if acounted a then None else
           match aform a with
-          | FInl => Some (set_co c (set_cst (AResume (ByFire o)) (set_on t co)) s)    (* caller of swap_exec adds the swap *)
+          | FInl => Some (set_co c (set_cst (AResume (ByFire o)) (set_on t co)) s)    (* the caller adds swap_exec *)
           | FSticky => Some (set_co c (do_submit t (cexec co) co) s)
           | FOn _ => None
           end
@@ -432,18 +434,18 @@ Definition plain_fire (t o c : nat) (s : st) : option st :=
   | None => None
   end.
 
-Definition resume_inline (t o c : nat) (s : st) : st :=
+Definition resume_inline (sw : bool) (t o c : nat) (s : st) : st :=
   match nth_error (cos s) c with
-  | Some co => swap_exec c o (set_co c (set_cst (AResume (ByFire o)) (set_on t co)) s)
+  | Some co => swap_exec sw c o (set_co c (set_cst (AResume (ByFire o)) (set_on t co)) s)
   | None => s
   end.
 
 (* the last SubEqual(1) of a counted awaiter, by a completion *)
-Definition counted_last (t o c : nat) (a : apt) (s : st) : st :=
+Definition counted_last (sw : bool) (t o c : nat) (a : apt) (s : st) : st :=
   match nth_error (cos s) c with
   | Some co =>
       match aform a with
-      | FInl => resume_inline t o c s
+      | FInl => resume_inline sw t o c s
       | FSticky => set_co c (do_submit t (cexec co) co) s
       | FOn e => set_co c (do_submit t e co) s
       end
@@ -576,7 +578,7 @@ Definition step_xchg (s : st) (t o : nat) : option st :=
   | None => None
   end.
 
-Definition step_csub (s : st) (t c v : nat) : option st :=
+Definition step_csub (sw : bool) (s : st) (t c v : nat) : option st :=
   match nth_error (cos s) c with
   | Some co =>
       match capt co with
@@ -606,7 +608,7 @@ Definition step_csub (s : st) (t c v : nat) : option st :=
               | Some (o, c', s1) =>
                   if Nat.eqb c' c && Nat.leb 1 (cnt co) && Nat.eqb v (cnt co - 1)
                   then let s2 := set_co c (set_cnt v co) s1 in
-                       Some (if Nat.eqb (cnt co) 1 then counted_last t o c a s2 else s2)
+                       Some (if Nat.eqb (cnt co) 1 then counted_last sw t o c a s2 else s2)
                   else None
               | None => None
               end
@@ -654,7 +656,7 @@ Definition step_begin (s : st) (t c : nat) : option st :=
   | None => None
   end.
 
-Definition step_res (s : st) (t c : nat) : option st :=
+Definition step_res (sw : bool) (s : st) (t c : nat) : option st :=
   match nth_error (cos s) c with
   | Some co =>
       match cst co with
@@ -669,7 +671,7 @@ Definition step_res (s : st) (t c : nat) : option st :=
                   match nth_error (cos s2) c with
                   | Some co2 =>
                       match cst co2 with
-                      | AResume (ByFire _) => finish_await t c (ByFire o) (swap_exec c o s2)
+                      | AResume (ByFire _) => finish_await t c (ByFire o) (swap_exec sw c o s2)
                       | AResume h => finish_await t c h s2
                       | _ => None
                       end
@@ -714,13 +716,13 @@ Definition step_submit (s : st) (t x c : nat) : option st :=
   | None => None
   end.
 
-Definition step_g (rr : bool) (s : st) (e : ev) : option st :=
+Definition step_g (rr sw : bool) (s : st) (e : ev) : option st :=
   match e with
   | ELd t o v => step_ld rr s t o v
   | ECas t o ok => step_cas s t o ok
   | ESt t o => step_st s t o
   | EXchg t o => step_xchg s t o
-  | ECSub t c v => step_csub s t c v
+  | ECSub t c v => step_csub sw s t c v
   | ECLd t c v => step_cld s t c v
   | ESet t o r =>
       match nth_error (objs s) o with
@@ -744,7 +746,7 @@ Definition step_g (rr : bool) (s : st) (e : ev) : option st :=
       | None => None
       end
   | EBegin t c => step_begin s t c
-  | ERes t c => step_res s t c
+  | ERes t c => step_res sw s t c
   | ERet t c r =>
       match nth_error (cos s) c with
       | Some co =>
@@ -796,15 +798,15 @@ Definition step_g (rr : bool) (s : st) (e : ev) : option st :=
       end
   end.
 
-Fixpoint run_g (rr : bool) (s : st) (tr : list ev) : option st :=
+Fixpoint run_g (rr sw : bool) (s : st) (tr : list ev) : option st :=
   match tr with
   | [] => Some s
-  | e :: r => match step_g rr s e with Some s' => run_g rr s' r | None => None end
+  | e :: r => match step_g rr sw s e with Some s' => run_g rr sw s' r | None => None end
   end.
 
-(* the model of the tree under check: the readiness rule is the one found in the source *)
-Definition step := step_g c13_ready_is_result.
-Definition run := run_g c13_ready_is_result.
+(* the model of the tree under check: the readiness rule and the executor hand-over are the ones found in the source *)
+Definition step := step_g c13_ready_is_result c13_impl_swaps_executor.
+Definition run := run_g c13_ready_is_result c13_impl_swaps_executor.
 
 (* nothing is in flight: every coroutine is finished or suspended, no callback list is half fired, no executor holds a job *)
 Definition co_quiet (co : coro) : bool :=
